@@ -57,7 +57,11 @@ class Check:
         v = []
         for txt in res.san:
             self.count("sanitizer_reports")
-            v.append(Violation("crash|" + runner.san_key(txt, res.stderr_full), "sanitizer report:\n" + txt[:3000], res))
+            k = runner.san_key(txt, res.stderr_full)
+            if k.endswith("pncdrv.c") or k.endswith("shim.c"):
+                # undefined behaviour in the driver itself is a defect of this harness, never an observation about the library
+                raise runner.HarnessError("sanitizer report inside the verification driver (case %s): %s" % (res.case.name, txt[:600]))
+            v.append(Violation("crash|" + k, "sanitizer report:\n" + txt[:3000], res))
         oc = res.open_calls()
         if res.timed_out:
             where = ["r%d:%s@%d" % (i, e.op, e.line) if e else "r%d:done" % i for i, e in enumerate(oc)]
